@@ -108,6 +108,13 @@ void harness(void)
     VF_ASSERT(seen, "C13: result NUL-terminated inside output_size");
     VF_ASSERT(n >= 1, "C13: successful setting is not empty");
     VF_ASSERT(out[0] != '*', "C13: successful setting does not start with '*'");
+#ifdef MIN_OUT_LEN
+    VF_ASSERT(n >= MIN_OUT_LEN, "C12: a successful setting carries at least the method's minimal salt (too-short random input is EINVAL)");
+#endif
+    if (in_rb_null) {
+      extern unsigned vf_rand_calls; extern size_t vf_rand_len;
+      VF_ASSERT(vf_rand_calls == 1 && vf_rand_len >= 1 && vf_rand_len <= 255, "C12: rbytes == NULL draws the bytes from the OS source exactly once");
+    }
     VF_ASSERT(n < CRYPT_GENSALT_OUTPUT_SIZE, "C10: setting shorter than CRYPT_GENSALT_OUTPUT_SIZE");
 #ifndef PREFIX_NULL
     {
